@@ -72,6 +72,7 @@ type Contract struct {
 	PanicsIff  *Clause
 	MayPanic   *Clause
 	Modifies   []string
+	Preserves  []string // with "modifies all": what is nevertheless unchanged
 	HasMod     bool
 	Loops      map[int]*LoopSpec
 	Foralls    []ParamSpec
@@ -86,9 +87,12 @@ type Contract struct {
 // AfterClause: "after <callee> assert [label:] <e>" - a ghost assert-then-assume
 // placed after every call of <callee> in the function (result names are bound).
 type AfterClause struct {
-	Callee string
+	Callee string // callee name, or "store:<T.f>", or "exit"
 	Cl     Clause
 	Inst   bool // "after <callee> instantiate <requires-label>(args...)": sound by construction, no obligation
+	// ghost assignment "ghostset g(v1, ..) = e": the ghost map g becomes the function (v1, ..) -> e
+	Ghost     string
+	GhostVars []string
 }
 
 type SpecFunc struct {
@@ -289,9 +293,18 @@ func (cs *Contracts) parseFile(path, pkg string) error {
 		case "cover":
 			cur.Covers = append(cur.Covers, cl)
 		case "after":
-			cur.After = append(cur.After, AfterClause{Callee: p.extra, Cl: cl})
+			cur.After = append(cur.After, AfterClause{Callee: normPoint(p.extra), Cl: cl})
 		case "after_inst":
 			cur.After = append(cur.After, AfterClause{Callee: p.extra, Cl: cl, Inst: true})
+		case "after_ghost":
+			parts := strings.Split(p.extra, "\x00")
+			ac := AfterClause{Callee: normPoint(parts[0]), Cl: cl, Ghost: parts[1]}
+			for _, v := range strings.Split(parts[2], ",") {
+				if v = strings.TrimSpace(v); v != "" {
+					ac.GhostVars = append(ac.GhostVars, v)
+				}
+			}
+			cur.After = append(cur.After, ac)
 		case "invariant":
 			ls := cur.loop(p.loop)
 			ls.Inv = append(ls.Inv, cl)
@@ -409,6 +422,17 @@ func (cs *Contracts) parseFile(path, pkg string) error {
 			if err := needCur(); err != nil {
 				return err
 			}
+			if i := strings.Index(rest, " ghostset "); i >= 0 {
+				gm := regexp.MustCompile(`^([A-Za-z_][A-Za-z0-9_]*)\(([^)]*)\)\s*=\s*(.*)$`).FindStringSubmatch(strings.TrimSpace(rest[i+10:]))
+				if gm == nil {
+					return fmt.Errorf("%s:%d: expected 'after <point> ghostset g(v1, ..) = <e>'", path, lineNo)
+				}
+				if err := startClause("after_ghost", 0, gm[3], false); err != nil {
+					return err
+				}
+				pend.extra = strings.TrimSpace(rest[:i]) + "\x00" + gm[1] + "\x00" + gm[2]
+				continue
+			}
 			if i := strings.Index(rest, " instantiate "); i >= 0 {
 				if err := startClause("after_inst", 0, strings.TrimSpace(rest[i+13:]), false); err != nil {
 					return err
@@ -435,6 +459,18 @@ func (cs *Contracts) parseFile(path, pkg string) error {
 			for _, it := range strings.Split(rest, ",") {
 				if it = strings.TrimSpace(it); it != "" && it != "nothing" {
 					cur.Modifies = append(cur.Modifies, it)
+				}
+			}
+		case "preserves":
+			if err := needCur(); err != nil {
+				return err
+			}
+			if err := flush(); err != nil {
+				return err
+			}
+			for _, it := range strings.Split(rest, ",") {
+				if it = strings.TrimSpace(it); it != "" {
+					cur.Preserves = append(cur.Preserves, it)
 				}
 			}
 		case "loop":
@@ -633,6 +669,15 @@ func (cs *Contracts) parseFile(path, pkg string) error {
 		}
 	}
 	return flush()
+}
+
+// normPoint: "store T.f" -> "store:T.f"
+func normPoint(s string) string {
+	s = strings.TrimSpace(s)
+	if strings.HasPrefix(s, "store ") {
+		return "store:" + strings.TrimSpace(s[6:])
+	}
+	return s
 }
 
 func (c *Contract) loop(n int) *LoopSpec {
